@@ -37,6 +37,15 @@ for d in selftest/mutants/*/; do
   if [ -n "$ids" ] && ! echo " $ids " | grep -q " $id "; then continue; fi
   for p in "$d"*.patch; do [ -f "$p" ] || continue; run_one mutant "$id" "$PWD/$p" || fail=1; done
 done
+# the changes seeded by independent sub-agents (seeded/<ID>-<name>/patch.diff) are must-fail too
+for d in seeded/*/; do
+  id=$(basename "$d" | cut -d- -f1)
+  if [ -n "$ids" ] && ! echo " $ids " | grep -q " $id "; then continue; fi
+  [ -f "$d/patch.diff" ] || continue
+  cp "$d/patch.diff" "/tmp/govc-seed-$(basename $d).patch"
+  run_one mutant "$id" "/tmp/govc-seed-$(basename $d).patch" || fail=1
+  rm -f "/tmp/govc-seed-$(basename $d).patch"
+done
 for p in selftest/neutral/*.patch; do
   [ -f "$p" ] || continue
   for id in $(sed -n 's/^# checks: //p' "$p"); do
